@@ -361,8 +361,9 @@ func (r *Run) Step(op Op) StepObs {
 		}
 	case "addassigner":
 		ak := refKey(op.C)
-		res = w.Exec(sender, "add_free_storage_assigner", stg.AddAssignerInput(ak.ID, ak.PK, op.F, op.G), 0, now)
-		model = vh.App("OpAddAssigner", S, vh.Z(int64(op.C)), fbits(op.F), fbits(op.G))
+		// op.P: which of the assigner's key pairs is registered (re-registration = key rotation)
+		res = w.Exec(sender, "add_free_storage_assigner", stg.AddAssignerInput(ak.ID, assKey(op.C, op.P).PK, op.F, op.G), 0, now)
+		model = vh.App("OpAddAssigner", S, vh.Z(int64(op.C)), vh.Z(int64(op.P)), fbits(op.F), fbits(op.G))
 
 	case "freealloc":
 		rec := op.C
@@ -370,7 +371,8 @@ func (r *Run) Step(op Op) StepObs {
 			rec = op.S
 		}
 		ass := refAssigner + op.B
-		signer := refKey(ass)
+		// op.P: the key pair of the assigner the marker is signed with (current, retired or never registered)
+		signer := assKey(ass, op.P)
 		if op.X&xBadSig != 0 {
 			signer = key("intruder")
 		}
@@ -383,7 +385,7 @@ func (r *Run) Step(op Op) StepObs {
 			r.AllocRR[op.A] = [4]uint64{0, c.FreeMaxRP, 0, c.FreeMaxWP}
 		}
 		coin, okc := parseZCN(op.F)
-		model = vh.App("OpFreeAlloc", A, S, vh.Z(int64(ass)), vh.Z(int64(rec)), zopt(okc, int64(coin)), vh.Z(op.N), vh.Bool(op.X&xBadSig == 0), refsZ(op.Bl))
+		model = vh.App("OpFreeAlloc", A, S, vh.Z(int64(ass)), vh.Z(int64(rec)), zopt(okc, int64(coin)), vh.Z(op.N), vh.Z(int64(signerNum(op))), refsZ(op.Bl))
 
 	default:
 		panic("unknown op kind " + op.K)
@@ -450,3 +452,14 @@ func (r *Run) Step(op Op) StepObs {
 	return st
 }
 
+
+// signerNum: the key number a free-storage marker is signed with
+func signerNum(op Op) int {
+	if op.X&xBadSig != 0 {
+		return intruderKeyNum
+	}
+	if op.P < 0 {
+		return 0
+	}
+	return op.P
+}
